@@ -82,6 +82,11 @@ class MessageManager(interfaces.TokenInterface, interfaces.MessageManager):
             cancellable.cancel()
         self._active_exchanges = None
 
+        # The empty ACKs can not be sent any more once the transport is gone
+        for _mid, empty_ack_timeout in self._piggyback_opportunities.values():
+            empty_ack_timeout.cancel()
+        self._piggyback_opportunities.clear()
+
         await self.message_interface.shutdown()
 
     #
